@@ -302,6 +302,11 @@ def other_inputs(rng, tier):
         add("vwsc:syn-part-%d" % fs, "vwsc", score([[(44, b"\x09\x09\x07\x01")], []], fs), cuts=False)
         add("vwsc:syn-part2-%d" % fs, "vwsc", score([[(2, b"\x05")], [(3, b"\x06")]], fs), cuts=False)
         add("vwsc:syn-bad-%d" % fs, "vwsc", score([[(0, bytes(range(1, 41)))], [(500, b"\x01")]], fs), cuts=False)
+        # a score that BEGINS with the 2-byte "same as the previous frame" record (legal: the initial, empty state) and one
+        # that consists of such records only: whatever an earlier, possibly failed, decode left behind must not show in frame 1
+        add("vwsc:syn-first-empty-%d" % fs, "vwsc", score([[], [(2, b"\x05")], []], fs), cuts=False)
+        add("vwsc:syn-all-empty-%d" % fs, "vwsc", score([[], []], fs), cuts=False)
+        add("vwsc:syn-bad-late-%d" % fs, "vwsc", score([[(44, b"\x09\x09\x07\x01")], [(4, b"\x03")], [(0, b"\x01")] * 1 + [(900, b"\x01")]], fs), cuts=False)
     # CASt chunks out of the cast fixtures' movies
     try:
         from drxtract.riff.riff import parse_riff
